@@ -3,7 +3,7 @@
 A case (plain JSON):
 
   {"spec": I, "filters": [f..], "builder": b, "pre": [...], "rm_m": 0|1, "rm_j": 0|1,
-   "picks": [[a, c], ...], "env": {...}?, "reset_at_end": 0|1}
+   "picks": [[a, c], ...], "env": {...}?, "reset_at_end": 0|1, "picks2": [[a, c], ...]?, "manual_sub": 1?}
 
   builder   0 disjunctive, 1 agent-task, 2 agent-task with jobs, 3 complete agent-task (CmdC16's numbering)
   pre       observers created BEFORE the updater, on the fresh dispatcher: [0] create_or_get(Unscheduled..),
@@ -13,7 +13,10 @@ A case (plain JSON):
   env       when present the same history is played through a real SingleJobShopGraphEnv (first episode only;
             session.make_env; default updater options; `pre` is what the feature-observer configs create)
 
-Everything is freshly constructed; the history is one episode. After EVERY dispatch:
+Everything is freshly constructed. With `reset_at_end` the dispatcher is reset after the first episode and the
+state the updater / its observers are left in is tied to the model's (proved equal to the freshly constructed
+one, properties/C12b.v); `picks2` then plays a second episode which is tied and judged like the first one
+(the clauses of the property are per episode: "removals are permanent within an episode"). After EVERY dispatch:
   tie    : removed_nodes, the remaining typed edge set and the flags / counters of the updater's
            IsCompletedObserver == model (command 1701)
   oracle : the six clauses of coq/spec/ResidualSpec.v evaluated by the extracted boolean specification on the
@@ -21,8 +24,6 @@ Everything is freshly constructed; the history is one episode. After EVERY dispa
 Zero-duration instances form a separate stream (counted in the distribution). The property is stated for
 positive durations; the theorems of coq/properties/C17.v only need durations >= 0, so that stream is tied AND
 judged by the oracle like the rest.
-What dispatcher.reset() does is property C12's business: `reset_at_end` only monitors the model's reset
-(`secondary_mismatch:reset`), it never raises.
 """
 from __future__ import annotations
 
@@ -85,9 +86,10 @@ class C17(Check):
         "machine, every job non-empty",
         "the graph is the output of one of the four built-in builders on the dispatcher's own instance "
         "(disjunctive graph: no machine id listed twice inside one operation, as in C16)",
-        "dispatcher, observers and updater freshly constructed on the initial state; one episode "
-        "(what happens after dispatcher.reset() is C12's property)",
-        "the updater is subscribed (subscribe=True) and nobody unsubscribes / re-orders the subscribers",
+        "dispatcher, observers and updater freshly constructed on the initial state; further episodes start with "
+        "dispatcher.reset() (the theorems are per episode from the fresh state; reset = fresh is C12b's theorem)",
+        "the updater is subscribed - by its constructor (subscribe=True) or by dispatcher.subscribe(updater) right "
+        "after ResidualGraphUpdater(..., subscribe=False) - and nobody unsubscribes / re-orders the subscribers",
         "last clause: default options (both remove_completed_* True), every machine id below num_machines is "
         "listed by some operation, at least one operation",
     ]
@@ -189,11 +191,17 @@ class C17(Check):
                 case["rm_m"] = case["rm_j"] = 1
             else:
                 case["pre"] = self.gen_pre(rng)
+                if rng.random() < 0.2:
+                    case["manual_sub"] = 1
                 if rng.random() < 0.55:
                     case["rm_m"] = case["rm_j"] = 1
                 else:
                     case["rm_m"], case["rm_j"] = rng.choice([[1, 0], [0, 1], [0, 0]])
-            case["reset_at_end"] = int(rng.random() < 0.1)
+            case["reset_at_end"] = int(rng.random() < 0.3)
+            if case["reset_at_end"] and "env" not in case and rng.random() < 0.7:
+                # a second episode after dispatcher.reset(): the clauses are judged on it as well
+                n2 = total if rng.random() < 0.6 else rng.randint(1, total)
+                case["picks2"] = [[rng.randrange(1000), rng.randrange(1000)] for _ in range(n2)]
             cases.append(case)
             self.count(case)
         return cases
@@ -227,6 +235,11 @@ class C17(Check):
             self.note("with_pre_existing_observers")
         if len(case["picks"]) < st["ops"]:
             self.note("partial_history")
+        if case.get("manual_sub"):
+            self.note("constructed_unsubscribed_then_subscribed")
+        if case.get("picks2"):
+            self.note("second_episode")
+            self.note("dispatches_second_episode", len(case["picks2"]))
 
     # ---- implementation -----------------------------------------------------
     def run_impl(self, case):
@@ -260,8 +273,19 @@ class C17(Check):
                                              p[1:]) if h]
                     IsCompletedObserver(dispatcher, feature_types=fts)
             n_before = len(dispatcher.subscribers)
-            updater = ResidualGraphUpdater(dispatcher, g, remove_completed_machine_nodes=bool(case["rm_m"]),
-                                           remove_completed_job_nodes=bool(case["rm_j"]))
+            if case.get("manual_sub"):
+                # the documented two-step form: construct unsubscribed, then subscribe explicitly. Subscribing is
+                # `dispatcher.subscribers.append(self)` in both forms (DispatcherObserver.__init__), so the model's
+                # construction is the same; what must not change is that the helper observers are subscribed FIRST.
+                updater = ResidualGraphUpdater(dispatcher, g, subscribe=False,
+                                               remove_completed_machine_nodes=bool(case["rm_m"]),
+                                               remove_completed_job_nodes=bool(case["rm_j"]))
+                if updater in dispatcher.subscribers:
+                    raise RuntimeError("subscribe=False subscribed the updater")
+                dispatcher.subscribe(updater)
+            else:
+                updater = ResidualGraphUpdater(dispatcher, g, remove_completed_machine_nodes=bool(case["rm_m"]),
+                                               remove_completed_job_nodes=bool(case["rm_j"]))
             if dispatcher.subscribers[-1] is not updater or len(dispatcher.subscribers) < n_before + 1:
                 raise RuntimeError("the updater did not subscribe itself last")
         graph = updater.job_shop_graph
@@ -269,26 +293,31 @@ class C17(Check):
         op_ids_ok = all(n.operation.operation_id == n.node_id for n in graph.nodes
                         if n.node_type.value == 1)
         state0 = enc_state(updater)
-        steps = []
-        for a, c in case["picks"]:
-            ready = dispatcher.raw_ready_operations()
-            if not ready:
-                break
-            op = ready[a % len(ready)]
-            m = op.machines[c % len(op.machines)]
-            if env is not None:
-                env.step((op.job_id, m))
-            else:
-                dispatcher.dispatch(op, m)
-            completed = dispatcher.completed_operations()
-            steps.append([[op.job_id, op.position_in_job, m], rows_of(dispatcher), enc_state(updater),
-                          sorted([o.job_id, o.position_in_job] for o in completed),
-                          bool(dispatcher.schedule.is_complete())])
+
+        def play(picks):
+            out = []
+            for a, c in picks:
+                ready = dispatcher.raw_ready_operations()
+                if not ready:
+                    break
+                op = ready[a % len(ready)]
+                m = op.machines[c % len(op.machines)]
+                if env is not None:
+                    env.step((op.job_id, m))
+                else:
+                    dispatcher.dispatch(op, m)
+                completed = dispatcher.completed_operations()
+                out.append([[op.job_id, op.position_in_job, m], rows_of(dispatcher), enc_state(updater),
+                            sorted([o.job_id, o.position_in_job] for o in completed),
+                            bool(dispatcher.schedule.is_complete())])
+            return out
+
+        steps = play(case["picks"])
         same_graph = updater.job_shop_graph is graph
         after_reset = []
         if case.get("reset_at_end") and env is None:
             dispatcher.reset()
-            after_reset = [enc_state(updater)]
+            after_reset = [enc_state(updater), play(case.get("picks2", []))]
         return common.norm([nodes, state0, steps, [op_ids_ok, same_graph], after_reset])
 
     # ---- model --------------------------------------------------------------
@@ -296,18 +325,23 @@ class C17(Check):
         nodes, state0, steps, _, after_reset = obs
         spec = case["spec"]
         events = [[0] + st[0] for st in steps]
+        reqs = []
         if after_reset:
             events.append([1])
+            events += [[0] + st[0] for st in after_reset[1]]
+            # second episode: the clauses start again from the graph dispatcher.reset() left behind
+            reqs.append((1702, [spec, case["filters"], nodes, after_reset[0][0],
+                                [[st[1], st[2][0], st[2][1]] for st in after_reset[1]]]))
         return [
             (1701, [spec, case["filters"], case["builder"], case["pre"], case["rm_m"], case["rm_j"], events]),
             (1702, [spec, case["filters"], nodes, state0[0], [[st[1], st[2][0], st[2][1]] for st in steps]]),
-        ]
+        ] + reqs
 
     # ---- judgement ----------------------------------------------------------
     def judge(self, case, obs, outs):
         fails = []
         nodes, state0, steps, (op_ids_ok, same_graph), after_reset = obs
-        model, oracle = outs
+        model, oracle = outs[0], outs[1]
         spec = case["spec"]
         if model[0] != 1:
             return [Failure("tie", "builder-raises", "the model's builder raised on this instance")]
@@ -337,22 +371,46 @@ class C17(Check):
             if not tie_state(f"after dispatch #{i} {st[0]}", st[2], ms[1]):
                 break
         if after_reset:
-            if len(msteps) != len(steps) + 1 or after_reset[0][:3] != msteps[-1][1]:
+            steps2 = after_reset[1]
+            if len(msteps) != len(steps) + 1 + len(steps2) or after_reset[0][:3] != msteps[len(steps)][1]:
+                # the model's reset is proved to restore the freshly constructed state (C12b): a disagreement
+                # here means the next episode does not start from the state C17's clauses are stated for
                 self.note("secondary_mismatch:reset")
+                fails.append(Failure("tie", "state-after-reset",
+                                     "after dispatcher.reset() the updater / its observers differ from the model's "
+                                     "(= freshly constructed) state",
+                                     expected=msteps[len(steps)][1] if len(msteps) > len(steps) else None,
+                                     observed=after_reset[0][:3]))
             else:
                 self.note("reset_states_compared")
+                for i, (st, ms) in enumerate(zip(steps2, msteps[len(steps) + 1:])):
+                    if ms[0] != 1:
+                        fails.append(Failure("tie", "dispatch-accepted",
+                                             f"episode 2 dispatch #{i} {st[0]} rejected by the model"))
+                        break
+                    if not tie_state(f"episode 2, after dispatch #{i} {st[0]}", st[2], ms[1]):
+                        break
 
         # oracle: the extracted specification on the implementation's graph and rows
         (positive, nonempty, nodup, all_used), clauses = oracle
         in_scope = bool(nonempty and (nodup or case["builder"] != 0))
         default_opts = bool(case["rm_m"] and case["rm_j"])
+        episodes = [("", steps, clauses)]
+        if after_reset and len(outs) > 2:
+            episodes.append(("episode 2 (after dispatcher.reset()), ", after_reset[1], outs[2][1]))
+        for ep, esteps, eclauses in episodes:
+            self.judge_episode(case, nodes, ep, esteps, eclauses, in_scope, default_opts, all_used, fails)
+        return fails
+
+    def judge_episode(self, case, nodes, ep, steps, clauses, in_scope, default_opts, all_used, fails):
         for i, (st, cl) in enumerate(zip(steps, clauses)):
             complete, feasible = bool(cl[6]), bool(cl[7])
             if not feasible:
-                fails.append(Failure("tie", "schedule-not-feasible", f"dispatch #{i}: rows not feasible (C01)"))
+                fails.append(Failure("tie", "schedule-not-feasible", f"{ep}dispatch #{i}: rows not feasible (C01)"))
                 break
             if complete != bool(st[4]):
-                fails.append(Failure("tie", "is-complete", f"dispatch #{i}: Schedule.is_complete() != specification"))
+                fails.append(Failure("tie", "is-complete",
+                                     f"{ep}dispatch #{i}: Schedule.is_complete() != specification"))
             for k, name in enumerate(CLAUSES):
                 if k == 5 and not (complete and default_opts and all_used):
                     continue
@@ -363,12 +421,11 @@ class C17(Check):
                     continue
                 fails.append(Failure(
                     "oracle", name,
-                    f"after dispatch #{i} {st[0]} the clause '{name}' fails on the implementation's graph "
+                    f"{ep}after dispatch #{i} {st[0]} the clause '{name}' fails on the implementation's graph "
                     f"(builder {BUILDERS[case['builder']]})",
                     observed={"rows": st[1], "removed": st[2][0], "edges": st[2][1], "completed": st[3],
                               "nodes": nodes}))
                 break
-        return fails
 
     def nontrivial(self, case, obs):
         steps = obs[2]
@@ -387,12 +444,16 @@ class C17(Check):
             c["picks"] = c["picks"][:total]
             return c
 
-        if case.get("reset_at_end"):
-            yield dict(case, reset_at_end=0)
+        if case.get("picks2"):
+            yield dict(case, picks2=case["picks2"][:-1])
+        elif case.get("reset_at_end"):
+            yield {k: v for k, v in case.items() if k != "picks2"} | {"reset_at_end": 0}
         if case["picks"]:
             yield dict(case, picks=case["picks"][:-1])
         if case["filters"]:
             yield dict(case, filters=[])
+        if case.get("manual_sub"):
+            yield {k: v for k, v in case.items() if k != "manual_sub"}
         if case["pre"] and "env" not in case:
             yield dict(case, pre=case["pre"][:-1])
             yield dict(case, pre=case["pre"][1:])
